@@ -89,6 +89,7 @@ def _evaluate(ids, seeds, tier, rows):
         r = sh("git -C %s apply %s" % (target, os.path.join(d, "patch.diff")))
         if r.returncode != 0:
             rows.append((sid, pid, "noapply", r.stderr[:100]))
+            print("%-28s %s NOAPPLY %s" % (sid, pid, r.stderr[:100]))
             if wt:
                 sh("git -C %s worktree remove --force %s" % (REPO, wt))
             continue
